@@ -247,6 +247,12 @@ pub struct MonFile {
     pos: u64,
 }
 
+impl std::fmt::Debug for MonFile {
+    fn fmt(&self, f: &mut std::fmt::Formatter<'_>) -> std::fmt::Result {
+        write!(f, "MonFile {{ len: {}, pos: {} }}", self.st.len(), self.pos)
+    }
+}
+
 impl MonFile {
     pub fn new(data: Vec<u8>) -> (MonFile, Shared) {
         let st = Shared(Arc::new(Mutex::new(MonState {
